@@ -547,11 +547,25 @@ pub fn build_with_cal(setup: &Setup, pycal: Option<CalType>) -> Result<Sut, Fail
     match &setup.ctor {
         Ctor::Py { ad } => {
             let mut m: IndexMap<NaiveDateTime, Number> = IndexMap::new();
+            // with `share_vars` all Dual nodes live on ONE variable list (same Arc, zero
+            // padding), and so do all Dual2 nodes - as when every node value is computed
+            // from one parameter vector
+            let (a1, a2) = {
+                use rateslib::dual::{Dual, Dual2};
+                let names = all_user_names(&setup.nodes);
+                (Dual::new(0.0, names.clone()), Dual2::new(0.0, names))
+            };
             for n in &setup.nodes {
-                m.insert(
-                    node_ndt(n),
-                    n.num.to_number().map_err(|e| herr(&e))?,
-                );
+                let mut num = n.num.to_number().map_err(|e| herr(&e))?;
+                if setup.share_vars {
+                    use rateslib::dual::Vars;
+                    num = match num {
+                        Number::Dual(d) => Number::Dual(d.to_new_vars(a1.vars(), None)),
+                        Number::Dual2(d) => Number::Dual2(d.to_new_vars(a2.vars(), None)),
+                        o => o,
+                    };
+                }
+                m.insert(node_ndt(n), num);
             }
             let cal = match pycal {
                 Some(c) => c,
